@@ -21,6 +21,8 @@ import (
 	sdk "github.com/cosmos/cosmos-sdk/types"
 	sdkaddress "github.com/cosmos/cosmos-sdk/types/address"
 
+	"github.com/bytecodealliance/wasmtime-go/v20"
+
 	bandtesting "github.com/bandprotocol/chain/v3/testing"
 	feedstypes "github.com/bandprotocol/chain/v3/x/feeds/types"
 	oracletypes "github.com/bandprotocol/chain/v3/x/oracle/types"
@@ -96,9 +98,37 @@ type Cfg struct {
 	Dts      []int64 `json:"block_dt_seconds"`
 	PriceOne bool    `json:"price_subset_event"`
 	Depth    int     `json:"depth"`
+	// Trap: requests use an oracle script whose execute traps, so every request that reaches min_count is resolved as
+	// FAILURE in that block and then waits for its expiry (reports must still protect their validators there)
+	Trap bool `json:"failing_script,omitempty"`
 }
 
-type spec struct{ cfg Cfg }
+// watTrap asks two data sources in prepare and traps in execute.
+const watTrap = `
+(module
+	(type $t0 (func))
+	(type $t1 (func (param i64 i64 i64 i64)))
+	(import "env" "ask_external_data" (func $ask_external_data (type $t1)))
+	(func $prepare (export "prepare") (type $t0)
+	  i64.const 5
+	  i64.const 2
+	  i64.const 1024
+	  i64.const 4
+	  call $ask_external_data
+	  i64.const 9
+	  i64.const 1
+	  i64.const 1024
+	  i64.const 4
+	  call $ask_external_data)
+	(func $execute (export "execute") (type $t0)
+	  unreachable)
+	(memory $memory (export "memory") 17)
+	(data (i32.const 1024) "test"))`
+
+type spec struct {
+	cfg    Cfg
+	script uint64 // oracle script requested by "req" (1, or the trapping script of a Trap configuration)
+}
 
 func (s *spec) Config() any { return s.cfg }
 
@@ -296,6 +326,17 @@ func (s *spec) Build(w *engine.World) (sdk.Context, engine.Model) {
 	}
 	if r := w.Tx(ctx, 0, restaketypes.NewMsgStake(voter().Address, sdk.NewCoins(sdk.NewInt64Coin("uband", 5)))); !r.OK() {
 		panic("stake: " + r.Err.Error())
+	}
+	s.script = 1
+	if s.cfg.Trap {
+		code, err := wasmtime.Wat2Wasm(watTrap)
+		if err != nil {
+			panic(err)
+		}
+		if r := w.Tx(ctx, 0, oracletypes.NewMsgCreateOracleScript("trap", "d", "s", "u", code, bandtesting.Owner.Address, bandtesting.Owner.Address)); !r.OK() {
+			panic("create script: " + r.Err.Error())
+		}
+		s.script = w.App.OracleKeeper.GetOracleScriptCount(ctx)
 	}
 	m := &model{Vote: s.cfg.InitVote}
 	for i := range m.V {
@@ -503,7 +544,7 @@ func (s *spec) Step(w *engine.World, ctx sdk.Context, mm engine.Model, ev string
 				ask++
 			}
 		}
-		msg := oracletypes.NewMsgRequestData(1, []byte("cd"), ask, 1, "c15", bandtesting.Coins100000000uband,
+		msg := oracletypes.NewMsgRequestData(oracletypes.OracleScriptID(s.script), []byte("cd"), ask, 1, "c15", bandtesting.Coins100000000uband,
 			bandtesting.TestDefaultPrepareGas, bandtesting.TestDefaultExecuteGas, bandtesting.FeePayer.Address, oracletypes.ENCODER_UNSPECIFIED)
 		res := w.Tx(ctx, 0, msg)
 		st.Outcome = "req:" + res.ErrName()
@@ -877,6 +918,8 @@ func configs(quick bool) []Cfg {
 			{Name: "feeds-A6-preact", Vals: []int{0}, PreAct: []int{0}, InitVote: 2, Votes: []int{3}, Phase: 2, Exp: 2, MaxVote: 1, MaxPrice: 2, Dts: allDts, Depth: 6},
 			// oracle clock only (no current feed): two validators, requests, reports, expiry
 			{Name: "oracle-exp1", Vals: []int{0, 1}, InitVote: 0, Phase: 0, Exp: 1, MaxReq: 2, Dts: []int64{0, 3, 10}, Depth: 7},
+			// the same with a script that traps in execute: resolved as FAILURE at min_count, judged at expiry
+			{Name: "oracle-exp2-trap", Vals: []int{0, 1}, PreAct: []int{0, 1}, InitVote: 0, Phase: 0, Exp: 2, MaxReq: 1, Dts: []int64{0, 3, 10}, Depth: 6, Trap: true},
 			{Name: "oracle-exp2", Vals: []int{0, 1}, PreAct: []int{0}, InitVote: 0, Phase: 1, Exp: 2, MaxReq: 2, Dts: []int64{0, 1, 10}, Depth: 7},
 			// both clocks
 			// two feeds whose power ranking is swapped by the vote (same number of feeds, different order
@@ -936,6 +979,9 @@ func configs(quick bool) []Cfg {
 		Cfg{Name: "feeds-subsecond", Vals: []int{0}, PreAct: []int{0}, InitVote: 2, Votes: []int{1}, Phase: 1, Exp: 2, Penalty: 3, BaseMs: 900, MaxVote: 1, MaxPrice: 2,
 			Dts: []int64{0, 3, 6}, DtsMs: []int64{500}, Depth: 8},
 	)
+	for _, exp := range []uint64{1, 2, 3} {
+		out = append(out, Cfg{Name: fmt.Sprintf("oracle-exp%d-trap", exp), Vals: []int{0, 1}, PreAct: []int{0, 1}, InitVote: 0, Phase: 0, Exp: exp, MaxReq: 2, Dts: []int64{0, 3, 10}, Depth: 7, Trap: true})
+	}
 	out = append(out, Cfg{Name: "oracle-longaddr", Vals: []int{0, 3}, PreAct: []int{0}, InitVote: 0, Phase: 1, Exp: 2, MaxReq: 2, Dts: []int64{0, 3, 10}, Depth: 9})
 	for _, exp := range []uint64{1, 2, 3} {
 		out = append(out, Cfg{Name: fmt.Sprintf("oracle-exp%d", exp), Vals: []int{0, 1}, InitVote: 0, Phase: 0, Exp: exp, MaxReq: 3, Dts: []int64{0, 1, 3, 10}, Depth: 8})
